@@ -98,6 +98,10 @@ def run_shard(spec, res):
                     # stopping early must not let the read-ahead grow either
                     sc2 = dict(sc, stop=['close', 2])
                     on_run(sc2, conc.run(sc2, D.starve_consumer_chooser()))
+                    if not key and entry in ('pf1', 'pft', 'parmap', 'chain'):
+                        sc4 = dict(sc, neighbour=True)
+                        on_run(sc4, conc.run(sc4, D.starve_consumer_chooser()))
+                        res.count('executions_with_neighbour_datasets')
                     # the buffer size is a parameter of the stage: it bounds
                     # the read-ahead of every copy of the stage as well
                     if not key and entry in ('pf1', 'pft', 'parmap'):
